@@ -17,7 +17,7 @@ RULE = ('seeded generator: planes with amplitude/OPD each scalar or 2-D, mask No
 ASSUMPTIONS = ['a plane with scalar amplitude, array OPD and no mask has no extent and is excluded (DESIGN.md C07)',
                'segment masks of one plane are pairwise disjoint']
 PLAN = {'quick': {'gen': 8}, 'thorough': {'gen': 16, 'tests': 1, 'docs': 1}}
-REQUIRED_BUCKETS = ['wf:chain-overlap', 'amp:scalar', 'amp:array', 'opd:scalar', 'opd:array', 'mask:none', 'mask:2d', 'mask:3d',
+REQUIRED_BUCKETS = ['plane:reused', 'wf:chain-overlap', 'amp:scalar', 'amp:array', 'opd:scalar', 'opd:array', 'mask:none', 'mask:2d', 'mask:3d',
                     'amp:scalar+mask:array', 'wf:default', 'wf:chain', 'wf:multi-field', 'wf:overlapping-fields',
                     'plane:default', 'pixelscale:mismatch', 'insert:weight0', 'insert:negative', 'pupil:focal']
 REQUIRED_ANCHORS = ['probe:Plane.multiply', 'probe:Pupil.multiply', 'probe:Wavefront.field',
@@ -416,6 +416,54 @@ def workload(ctx, lentil):
         except Exception:
             continue
         _touch_views(ctx, lentil, rng, w2)
+
+    # one plane object used repeatedly while its arrays are edited in place between uses (and through a subclass that
+    # computes its amplitude from state): the phasor must always be the one of the plane's *current* attributes
+    class Shutter(lentil.Pupil):
+        def __init__(self, base, **kw):
+            super().__init__(**kw)
+            self._base = base
+            self.open_fraction = 1.0
+
+        @property
+        def amplitude(self):
+            cut = int(round(self._base.shape[1] * self.open_fraction))
+            a = self._base.copy()
+            a[:, cut:] = 0
+            return a
+
+    for i in range(max(15, n // 5)):
+        wl = float(rng.uniform(400e-9, 1500e-9))
+        shape = gen.rshape(rng, 5, 16)
+        A = np.ones(shape, bool) if rng.random() < 0.5 else gen.support(rng, shape, kind=1)
+        amp = gen.amplitude(rng, A) + 0.0
+        opd = gen.opd(rng, shape, wl)
+        kw = {}
+        if rng.random() < 0.5:
+            segs, _ = gen.partition(rng, A, int(rng.integers(2, 4)))
+            kw['mask'] = segs.astype(float)
+        else:
+            kw['mask'] = A.astype(float)
+        ctx.case({'reuse-plane': list(shape), 'seg': kw['mask'].ndim == 3}, ['plane:reused'])
+        try:
+            if i % 3 == 2:
+                p = Shutter(amp.copy(), opd=opd, mask=kw['mask'], pixelscale=1e-3, focal_length=3.0)
+                w0 = lentil.Wavefront(wl)
+                p.multiply(w0)
+                p.open_fraction = float(rng.uniform(0.2, 0.8))
+                _touch_views(ctx, lentil, rng, p.multiply(w0))
+            else:
+                p = lentil.Pupil(amplitude=amp, opd=opd, pixelscale=1e-3, focal_length=3.0, **kw)
+                w0 = lentil.Wavefront(wl)
+                p.multiply(w0)                               # first use (online oracle)
+                r = int(rng.integers(0, shape[0]))
+                p.amplitude[r] *= 0.3                        # in-place edits of the plane's own arrays
+                p.amplitude[:, :int(rng.integers(1, shape[1]))] *= 0.5
+                p.multiply(w0)                               # online oracle compares with the current attributes
+                p.opd[...] = p.opd * 0.5 + wl * 0.1
+                _touch_views(ctx, lentil, rng, p.multiply(w0))
+        except Exception as e:
+            ctx.check(False, 'multiply=phasor', f'reuse|raises={type(e).__name__}', str(e), {'shape': list(shape)})
 
     # default plane changes nothing
     for i in range(max(10, n // 6)):
